@@ -48,7 +48,8 @@ def _stores(fn: ast.AST) -> Dict[str, int]:
 PURE_CALLS = {"len", "sum", "min", "max", "abs", "sorted", "list", "tuple", "set", "dict", "range", "enumerate", "zip", "float", "int", "str",
               "bool", "isinstance", "round", "any", "all", "frozenset", "reversed", "repr", "type", "copy", "get", "keys", "values", "items",
               "index", "count", "format", "accumulate", "attrgetter", "itemgetter", "sqrt", "floor", "ceil", "copysign", "isnan", "isinf",
-              "fabs", "exp", "log", "sin", "cos", "pow", "Time", "from_handle", "_from_handle", "getattr", "hasattr", "id", "divmod"}
+              "fabs", "exp", "log", "sin", "cos", "pow", "Time", "from_handle", "_from_handle", "getattr", "hasattr", "id", "divmod",
+              "nearby_cells", "position_to_cell", "relative_cell", "translate", "neighbor_cell"}
 
 
 def _is_pure(e: ast.AST) -> bool:
@@ -64,7 +65,7 @@ def _is_pure(e: ast.AST) -> bool:
             from_setting = isinstance(root, ast.Name) and root.id == "setting" and not name.startswith(("set", "reset", "init"))
             if name not in PURE_CALLS and not from_setting:
                 return False
-        if isinstance(n, (ast.Yield, ast.YieldFrom, ast.Await, ast.Lambda, ast.NamedExpr)):
+        if isinstance(n, (ast.Yield, ast.YieldFrom, ast.Await, ast.NamedExpr)):
             return False
     return True
 
